@@ -10,6 +10,7 @@ from .. import ref
 from ..core import fhex
 
 name = 'db'
+RAISE_ORACLE = 'I13.raise'
 
 
 def make_config(rng, profile, tier):
